@@ -31,9 +31,9 @@ var boundsTable = map[string]tabEntry{
 		"chunk arithmetic: i < chunks = lInputs/m+1 so i*m <= lInputs (hand argument; C11 does not claim the arithmetic)"},
 	"queryer.(*MultiOpQueryer).Query$1/‹[]*requests.Request›[‹int›*‹*queryer.MultiOpQueryer›.maxBatchSize:(‹int›+1)*‹*queryer.MultiOpQueryer›.maxBatchSize]": {1,
 		"taken only when (i+1)*m <= lInputs (else-branch of the test above)"},
-	"queryer.(*MultiOpQueryer).Query$2/‹[]map[string]interface{}›[(‹int›+1)*‹*queryer.MultiOpQueryer›.maxBatchSize:]": {1,
+	"queryer.(*MultiOpQueryer).Query$2/‹[]map[string]interface{}›[(‹*queryer.chunkResponse›.Index+1)*‹*queryer.MultiOpQueryer›.maxBatchSize:]": {1,
 		"guarded by (i+1)*m < lInputs and len(acc) == lInputs is an invariant of the splice"},
-	"queryer.(*MultiOpQueryer).Query$2/‹[]map[string]interface{}›[0:‹int›*‹*queryer.MultiOpQueryer›.maxBatchSize]": {1,
+	"queryer.(*MultiOpQueryer).Query$2/‹[]map[string]interface{}›[0:‹*queryer.chunkResponse›.Index*‹*queryer.MultiOpQueryer›.maxBatchSize]": {1,
 		"i*m <= lInputs = len(acc) (chunk arithmetic, hand argument)"},
 	"queryer.(*MultiOpQueryer).queryBatch/‹[]map[string]interface{}›[‹[]int›[‹int›]]": {1,
 		"toFetchIndexes holds indices recorded from `range inputs`; results is made with len(inputs)"},
